@@ -62,4 +62,18 @@ theorem realTablesC18_ok (l1raw kib : ℕ) (hk : 16 ≤ kib) (hk2 : kib ≤ 8192
     TablesOK (realTables (refSieve (realNT (genC18 l1raw kib) threads N).p) (genC18 l1raw kib) threads phiNeg wide N it) B :=
   realTablesRef_ok _ threads phiNeg wide N it B hBN (genC18_spec l1raw kib hk hk2) hphi hiter
 
+/-! ### a generator the kernel can run (for the non-vacuity examples of PcProps/C17Closed.lean) -/
+
+/-- the defining filter -/
+def exGen : PrimeGen := fun lo hi => (List.range' lo (hi - lo)).filter (fun q => decide q.Prime)
+
+theorem exGen_spec : PrimeGenSpec exGen := by
+  intro lo hi
+  unfold exGen
+  refine ⟨List.Pairwise.filter _ List.pairwise_lt_range', fun q => ?_⟩
+  simp only [List.mem_filter, List.mem_range'_1, decide_eq_true_eq]
+  constructor
+  · rintro ⟨⟨h1, h2⟩, h3⟩; exact ⟨h1, by omega, h3⟩
+  · rintro ⟨h1, h2, h3⟩; exact ⟨⟨h1, by omega⟩, h3⟩
+
 end Pc.Close
